@@ -831,6 +831,9 @@ func (h cachedHistogram) ValueBucket(
 	)
 
 	return reportSamplesFunc(func(value int64) {
+		// n.b. The bucket handle may be used from several goroutines at once:
+		//      work on a copy instead of the metric shared by the closure.
+		m := m
 		m.Value.Count = value
 		rep.reportCopyMetric(m, size, bucket, bucketID)
 	})
@@ -862,6 +865,9 @@ func (h cachedHistogram) DurationBucket(
 	)
 
 	return reportSamplesFunc(func(value int64) {
+		// n.b. The bucket handle may be used from several goroutines at once:
+		//      work on a copy instead of the metric shared by the closure.
+		m := m
 		m.Value.Count = value
 		rep.reportCopyMetric(m, size, bucket, bucketID)
 	})
